@@ -63,6 +63,9 @@ func (m MsgCreateGauge) ValidateBasic() error {
 		return fmt.Errorf("invalid coin amount: %s < 0", m.DepositAmount.Amount)
 	}
 
+	if m.TotalTriggers == 0 {
+		return fmt.Errorf("total triggers should be positive")
+	}
 	if m.DepositAmount.Amount.LT(sdk.NewIntFromUint64(m.TotalTriggers)) {
 		return fmt.Errorf("deposit amount : %s smaller than total triggers %d", m.DepositAmount.Amount, m.TotalTriggers)
 	}
